@@ -59,6 +59,7 @@ def replay(rec, expected_by_prefix):
         before = project.run({'action': 'snapshot', 'app_prefixes': APPS})
         prev_db = before['post']['default']['db']
         refs_dropped = False
+        tampered = []
         for i, op in enumerate(rec['hist']):
             if op['op'] == 'uninstall':
                 installed.remove(op['app'])
@@ -74,6 +75,24 @@ def replay(rec, expected_by_prefix):
                         present[op['app']].remove(m)
                         evolutions[op['app']].append({'label': 'del_%s' % m.lower(),
                                                       'mutations_src': ['DeleteModel(%r)' % m]})
+            if op['op'] == 'tamper':
+                # somebody drops one of the stale app's tables behind the tool's back
+                rt = project.run({'action': 'exec_sql', 'app_prefixes': APPS,
+                                  'statements': [['PRAGMA foreign_keys = OFF', []],
+                                                 ['DROP TABLE "%s"' % op['table'], []]]})
+                if rt['outcome'] != 'ok':
+                    out['errors'].append(('tamper', (rt.get('error') or {}).get('msg')))
+                    return out
+                tampered = [op['table']]
+                prev_db = project.run({'action': 'snapshot', 'app_prefixes': APPS})['post']['default']['db']
+                continue
+            if op['op'] == 'repair':
+                project.run({'action': 'exec_sql', 'app_prefixes': APPS,
+                             'statements': [['CREATE TABLE "%s" (id integer NOT NULL PRIMARY KEY)' % t, []]
+                                            for t in tampered]})
+                tampered = []
+                prev_db = project.run({'action': 'snapshot', 'app_prefixes': APPS})['post']['default']['db']
+                continue
             if op['op'] in ('uninstall', 'dropmodel', 'dropall'):
                 p_inst = 'p' in installed
                 if not p_inst and 'r' in installed and 'F' in present['r'] and not refs_dropped \
@@ -112,12 +131,16 @@ def replay(rec, expected_by_prefix):
                 'outcome': res['outcome'],
                 'error': (res.get('error') or {}).get('msg'),
                 'tables': sorted(db['tables']) if db else [],
+                'tables_before': sorted(prev_db['tables']) if prev_db else [],
                 'sig': sig_apps,
                 'expected': expected_by_prefix.get(key),
                 'statements': [e['sql'][:100] for e in res['events'] if e['ev'] == 'stmt'],
                 'changed_survivors': changed_survivors(prev_db, db),
             }
             out['steps'].append(step)
+            if op.get('failed') and prev_db and db:
+                # tables a half-done purge dropped although the signature still names them
+                tampered += sorted(set(prev_db['tables']) - set(db['tables']))
             prev_db = db
         return out
     finally:
@@ -131,7 +154,7 @@ def changed_survivors(before, after):
         return out
     for t, tb in before['tables'].items():
         ta = after['tables'].get(t)
-        if ta is None:
+        if ta is None or tb is None:
             continue
         if t == 'r_f':
             # the evolution that drops the relations into p rewrites r_f: compare the
